@@ -87,8 +87,12 @@ func (w *world) vote(i int, b string, sv int, kind string, typ kproto.SignedMsgT
 	switch kind {
 	case "height":
 		v.Height++
+	case "heightlow":
+		v.Height--
 	case "round":
 		v.Round++
+	case "roundlow":
+		v.Round--
 	case "type":
 		if typ == kproto.PrevoteType {
 			v.Type = kproto.PrecommitType
